@@ -107,8 +107,8 @@ def run(ctx):
     q = ctx.quick
     tree_names = wiring(ctx)
     tr, executed, nruns = runlib.run_templates(
-        ctx, ["C16"], seeds=[ctx.seed, ctx.seed + 1, ctx.seed + 2] if q else list(range(ctx.seed, ctx.seed + 2)),
-        iters=[0, 1, 5, 40] if q else [0, 1, 5, 40, 120])
+        ctx, ["C16"], seeds=[ctx.seed, ctx.seed + 1, ctx.seed + 2] if q else list(range(ctx.seed, ctx.seed + 3)),
+        iters=[0, 1, 5, 40] if q else [0, 1, 5, 30, 80])
     # the same templates with the parallel evaluator on pools of 2 and 3 worker threads (population sizes that are not
     # multiples of the pool size included)
     runlib.run_templates(ctx, ["C16"], seeds=[ctx.seed] if q else [ctx.seed, ctx.seed + 1, ctx.seed + 2], iters=[3] if q else [3, 12],
